@@ -683,7 +683,7 @@ def run_inventory(F, rep, tier, pid, roots, floors, what):
             # audited entries are matched per (function, kind, callee/assert) as a multiset: the entry with the same
             # occurrence number first, otherwise any unused entry of the same base whose recorded guards hold here -
             # so that adding or removing a *discharged* site of the same kind in the function does not shift the keys
-            sigs = {g1_panic.guard_sig(f) for f in A.facts_at(s.block)}
+            sigs = {g1_panic.guard_sig(f) for f in A.facts_at(s.block, stale_ok=True)}
             base = key.rsplit("#", 1)[0]
             cands = [k for k in audits_by_base.get(base, ()) if k not in used_audits]
             cands.sort(key=lambda k: (k != key, k))
